@@ -4,9 +4,10 @@ package obichunk
 // sSSSorter.Less hands the ADDRESSES of two slice elements to the comparison closure; the generator does not model
 // element addresses injectively, so "the two arguments are elements i and j" has no obligation.  The real code is run
 // instead, exhaustively over every arrangement of up to VERIF_BOUND records drawn from three classes:
-//   - _By(code order).Sort: the result is a permutation of the input, in non-decreasing code order;
-//   - ISequenceSubChunk (one worker, SequenceClassifier): every output batch holds records of one class only, every
-//     class present in the chunk comes out as exactly ONE batch, and the records are conserved (same identifiers).
+// ISequenceSubChunk (one worker, SequenceClassifier; only exported names are used, so that renaming the unexported
+// sorter types does not break the harness): every output batch holds records of one class only, every class present in
+// the chunk comes out as exactly ONE batch - which needs the records sorted in class order - and the records are
+// conserved (same identifiers).
 // Injected into pkg/obichunk with `go test -overlay`; nothing is written into the repository.
 
 import (
@@ -49,36 +50,6 @@ func TestVerifBoundedSubChunk(t *testing.T) {
 	}
 	for n := 1; n <= bound; n++ {
 		for _, arr := range arrangements(n) {
-			// the sorter alone
-			cases++
-			func() {
-				defer func() {
-					if r := recover(); r != nil {
-						fail(fmt.Sprintf("sort,codes=%v:panic:%v", arr, r))
-					}
-				}()
-				ordered := make([]sSS, n)
-				for i, c := range arr {
-					ordered[i].code = c
-					ordered[i].seq = obiseq.NewBioSequence(fmt.Sprintf("r%d", i), []byte(classes[c]), "")
-				}
-				_By(func(p1, p2 *sSS) bool { return p1.code < p2.code }).Sort(ordered)
-				seen := map[string]bool{}
-				for i := range ordered {
-					if i > 0 && ordered[i-1].code > ordered[i].code {
-						fail(fmt.Sprintf("sort,codes=%v:not in class order after Sort", arr))
-						return
-					}
-					id := ordered[i].seq.Id()
-					var k int
-					fmt.Sscanf(id, "r%d", &k)
-					if seen[id] || arr[k] != ordered[i].code {
-						fail(fmt.Sprintf("sort,codes=%v:not a permutation of the input after Sort", arr))
-						return
-					}
-					seen[id] = true
-				}
-			}()
 			// the sub-chunk stage
 			cases++
 			func() {
